@@ -255,18 +255,22 @@ func c19LenFact(field string, limitField string) Fact {
 			b, isB := call.Call.Value.(*ssa.Builtin)
 			return isB && b.Name() == "len" && reqFieldName(call.Call.Args[0]) == field
 		}
-		if limitField == "" { // non-empty
-			if !isLen(bo.X) {
+		if limitField == "" { // non-empty: len ⋈ k in every spelling (len == 0, len < 1, 0 == len, 1 > len, len != 0, len >= 1, ...)
+			x, y, op := bo.X, bo.Y, bo.Op
+			if _, isK := constInt(x); isK {
+				x, y, op = y, x, flipOp(op)
+			}
+			if !isLen(x) {
 				return false, false
 			}
-			k, isK := constInt(bo.Y)
-			if !isK || k != 0 {
+			k, isK := constInt(y)
+			if !isK {
 				return false, false
 			}
-			switch bo.Op {
-			case token.EQL, token.LEQ:
+			switch {
+			case (op == token.EQL || op == token.LEQ) && k == 0, op == token.LSS && k == 1:
 				return false, true
-			case token.NEQ, token.GTR:
+			case (op == token.NEQ || op == token.GTR) && k == 0, op == token.GEQ && k == 1:
 				return true, false
 			}
 			return false, false
